@@ -29,6 +29,9 @@ C={
  'C08':('exploration','lock-step reference-model monitor (fid-table model) with FS-call log, fid-table hook and quiescence hang detector',
         'Random and systematically enumerated call sequences run on the real SFileSys over an instrumented file system; after every call the outcome, the exact FS calls and the whole fid table (via the verif hook) are compared with a sequential reference model; unreturned calls at quiescence are hangs.',
         'trusted: harness/fsx model (DESIGN App. A) incl. its documented relations; instrumented FS deterministic; hook p9p.VerifFidTable'),
+ 'C11':('fault_enumeration','fault enumeration over a recorded run (inbound byte offsets, reply writes, reply counts x in-flight behaviours) with quiescence-based return detection, Stop counter, fid-table hook and release monitor, race detector',
+        'Scripts with a completed prologue and an in-flight set parked inside FS calls are run against the real ServeConn+SSession+SFileSys on a fault-injecting connection; one fault per run at every enumerated index (read error/EOF at byte k, failing reply write j also with the write parked and work queued behind it, ctx cancel after e replies) x handlers that fail on cancel / succeed after cancel / already finished. Checks: in-flight ctxs cancelled, ServeConn returned at quiescence, Stop exactly once, fid table empty, every handed-out entry released exactly once, no crash.',
+        'trusted: handlers wake on ctx.Done (proviso); virtual deadlines; exhaustive over fault indices of the tier scripts, server-internal goroutine schedule sampled'),
  'C12':('fault_enumeration','fault enumeration over a recorded run (every reply byte offset, every write, every reply count, every single call) + hostile-frame sampling, under crash, quiescence-hang and result monitors, race detector',
         'A real CSession client with 1-16 pending calls runs against a scripted peer on a fault-injecting connection: the inbound stream is failed at every byte offset (error/EOF), the peer closes after every reply count, every client write is failed, the session context is cancelled at every point, each call is cancelled alone; hostile frames (unknown/repeated/NOTAG tags, wrong types, abnormal frames, garbage) are sampled. Child-process crash observation, quiescence-based hang detection and per-call result checks decide.',
         'trusted: virtual deadlines (no timer-based verdicts); exhaustive over fault indices of the generated scenarios, hostile frames sampled'),
